@@ -163,6 +163,7 @@ func main() {
 		Components  map[string]string `json:"components"`
 		RaceBuild   bool              `json:"race_build"`
 		Exhaustive  bool              `json:"exhaustive"`
+		Required    []string          `json:"required_probes"`
 		From        int               `json:"from"`
 		To          int               `json:"to"`
 	}
@@ -175,6 +176,9 @@ func main() {
 		a = agg{T: "summary", Probes: map[string]int{}, Faults: map[string]int{}, SiteHits: map[string]int{}, Rule: p.Rule(), Components: p.Components(), RaceBuild: simrt.RaceBuild}
 		if ex, ok := p.(interface{ Exhaustive(string) bool }); ok {
 			a.Exhaustive = ex.Exhaustive(*tier)
+		}
+		if rp, ok := p.(interface{ RequiredProbes() []string }); ok {
+			a.Required = rp.RequiredProbes()
 		}
 		nontriv, pairs, traces = map[string]bool{}, map[string]bool{}, map[string]bool{}
 		t0 = time.Now()
